@@ -6,6 +6,7 @@ package main
 // C14 (deleted topic stays deleted), C13 (every request answered).
 
 import (
+	"github.com/tinode/chat/server/zzverif/vsched"
 	"sort"
 	"github.com/tinode/chat/server/push"
 	"fmt"
@@ -64,6 +65,8 @@ func vfP2PAlphabet(thorough bool) []vfP2POp {
 		}
 	}
 	ops = append(ops, vfP2POp{Kind: "pub", Actor: 2}, vfP2POp{Kind: "setself", Actor: 2, Mode: "JRWPA"}, vfP2POp{Kind: "setpriv", Actor: 2}, vfP2POp{Kind: "reload"})
+	// a received-note sent by the user's other session, which is attached to 'me' only (the hub routes it)
+	ops = append(ops, vfP2POp{Kind: "wnote", Actor: 0, What: "recv", Seq: 1}, vfP2POp{Kind: "wnote", Actor: 1, What: "recv", Seq: 1})
 	return ops
 }
 
@@ -105,6 +108,8 @@ func (t *vfTW) p2pRequest(o vfP2POp, n int) (string, *vfClient) {
 		return fmt.Sprintf(`{"pub":{"id":"$ID","topic":"%s","content":"m%d"}}`, a, n), c
 	case "note":
 		return fmt.Sprintf(`{"note":{"topic":"%s","what":"%s","seq":%d}}`, a, o.What, o.Seq), c
+	case "wnote":
+		return fmt.Sprintf(`{"note":{"topic":"%s","what":"%s","seq":%d}}`, a, o.What, o.Seq), t.watch[o.Actor]
 	case "delsub":
 		return fmt.Sprintf(`{"del":{"id":"$ID","topic":"%s","what":"sub","user":"%s"}}`, a, peer), c
 	case "deltopic":
@@ -137,7 +142,20 @@ func vfP2PExec(alphabet []vfP2POp) func(hist []int, last bool) vfXResult {
 			panic(fmt.Sprintf("p2p first pub %d", code))
 		}
 		npub := 1
-		for _, c := range t.cl {
+		// watchers: a second session of each participant, attached to 'me' only
+		for i := 0; i < 2; i++ {
+			wc := w.vfConnect(fmt.Sprintf("w%d", i))
+			vfQuiesce()
+			if code := wc.Login(t.users[i]); code != 200 {
+				panic(fmt.Sprintf("watcher login %d", code))
+			}
+			if code, _ := wc.Req(`{"sub":{"id":"$ID","topic":"me"}}`); code >= 300 {
+				panic(fmt.Sprintf("watcher sub me %d", code))
+			}
+			t.watch = append(t.watch, wc)
+		}
+		vfQuiesce()
+		for _, c := range append(append([]*vfClient{}, t.cl...), t.watch...) {
 			c.Take()
 			c.mark = len(c.frames)
 		}
@@ -161,6 +179,12 @@ func vfP2PExec(alphabet []vfP2POp) func(hist []int, last bool) vfXResult {
 				cl.mark = len(cl.frames)
 				cl.seen = len(cl.frames)
 			}
+			vfWatchFrames = map[int][]*vfFrame{}
+			for wi, cl := range t.watch {
+				vfWatchFrames[wi] = cl.frames[cl.mark:]
+				cl.mark = len(cl.frames)
+				cl.seen = len(cl.frames)
+			}
 			pushes, _ := vfPush.drain()
 			if op.Kind == "pub" && code == 202 {
 				npub++
@@ -173,6 +197,16 @@ func vfP2PExec(alphabet []vfP2POp) func(hist []int, last bool) vfXResult {
 			}
 		}
 		res.Key = t.snap().Key() + fmt.Sprintf(" npub=%d", npub)
+		// hidden state of the watchers' 'me' topics: the user agent announced last (arms the UA timer)
+		for i := 0; i < 2; i++ {
+			if mt := vfTopic(t.users[i].id()); mt != nil {
+				ua := ""
+				if ptr, ok := vsched.Exposed(mt, "currentUA").(*string); ok {
+					ua = *ptr
+				}
+				res.Key += fmt.Sprintf(" me%d:ua=%s/%s", i, ua, mt.userAgent)
+			}
+		}
 		return res
 	}
 }
@@ -186,10 +220,13 @@ func (t *vfTW) p2pUnload() {
 	vfAdvance(idleMasterTopicTimeout + 2000000000)
 }
 
+// frames received during the last step by the watcher sessions (index = user)
+var vfWatchFrames map[int][]*vfFrame
+
 func vfP2POracles(t *vfTW, pre *vfTopicSnap, op vfP2POp, code int, frames map[string][]*vfFrame, post *vfTopicSnap, pushes []*push.Receipt) []vfXViolation {
 	var out []vfXViolation
 	kind := op.Kind
-	if op.Kind == "note" {
+	if op.Kind == "note" || op.Kind == "wnote" {
 		kind += ":" + op.What
 	}
 	bad := func(key, what string) {
@@ -197,7 +234,7 @@ func vfP2POracles(t *vfTW, pre *vfTopicSnap, op vfP2POp, code int, frames map[st
 	}
 	actor := fmt.Sprintf("u%d", op.Actor)
 	sess := fmt.Sprintf("s%d", op.Actor)
-	if op.Kind != "reload" && op.Kind != "note" && code == 0 {
+	if op.Kind != "reload" && op.Kind != "note" && op.Kind != "wnote" && code == 0 {
 		bad("C13:unanswered:p2p-"+op.Kind, fmt.Sprintf("request %s received no {ctrl} with its id", op))
 	}
 	// C08 direct
@@ -321,8 +358,27 @@ func vfP2POracles(t *vfTW, pre *vfTopicSnap, op vfP2POp, code int, frames map[st
 			}
 		}
 	}
+	// C09 / C10 on the participants' 'me' topics: receipts are never echoed to the session they came
+	// from, and a user whose subscription is gone hears nothing about the topic any more
+	for wi, fr := range vfWatchFrames {
+		u := fmt.Sprintf("u%d", wi)
+		_, live := pre.live(u)
+		for _, f := range fr {
+			in := f.Msg.Info
+			if in == nil {
+				continue
+			}
+			if op.Kind == "wnote" && wi == op.Actor && in.From == t.users[wi].id() {
+				bad("C09:note-echoed-to-originating-session:"+op.What, fmt.Sprintf("%s: the sending session received its own receipt back: %s", op, vfFrameString(f)))
+			}
+			if !live {
+				bad("C09:note-relayed-to-removed-user:"+op.What, fmt.Sprintf("%s: %s has no subscription any more, yet the session on 'me' received %s", op, u, vfFrameString(f)))
+				bad("C10:notification-to-removed-user:p2p:info", fmt.Sprintf("%s: %s has no subscription any more, yet the session on 'me' received %s", op, u, vfFrameString(f)))
+			}
+		}
+	}
 	// C09: a note from a user who is not (or no longer) subscribed has no effect at all
-	if op.Kind == "note" {
+	if op.Kind == "note" || op.Kind == "wnote" {
 		_, sub := vfEff(pre, actor)
 		if cs, ok := pre.CSubs[actor]; ok && cs.Deleted {
 			sub = false
